@@ -353,10 +353,11 @@ class LSMTree(Entity):
             self._total_wal_writes += 1
 
         # Memtable put
-        is_full = yield from self._memtable.put(key, value)
+        memtable = self._memtable
+        is_full = yield from memtable.put(key, value)
 
-        # Flush if full
-        if is_full:
+        # Flush if full (unless another writer rotated this memtable meanwhile)
+        if is_full and memtable is self._memtable:
             yield from self._flush_memtable()
 
     def put_sync(self, key: str, value: Any) -> None:
@@ -465,8 +466,9 @@ class LSMTree(Entity):
             self._wal_inflight.discard(seq)
             self._total_wal_writes += 1
 
-        is_full = yield from self._memtable.put(key, _TOMBSTONE)
-        if is_full:
+        memtable = self._memtable
+        is_full = yield from memtable.put(key, _TOMBSTONE)
+        if is_full and memtable is self._memtable:
             yield from self._flush_memtable()
 
     def scan(self, start_key: str, end_key: str) -> Generator[float, None, list[tuple[str, Any]]]:
@@ -528,8 +530,9 @@ class LSMTree(Entity):
             else:
                 truncate_up_to = self._wal._next_sequence - 1
 
-        # Flush to SSTable
-        sstable = old_memtable.flush()
+        # Build the SSTable; the rotated memtable keeps its entries so that
+        # reads are served from it until the SSTable is installed in L0
+        sstable = old_memtable.flush(clear=False)
         self._sstable_bytes_written += sstable.size_bytes
 
         # Write latency for creating SSTable on disk
@@ -540,8 +543,9 @@ class LSMTree(Entity):
         self._levels[0].append(sstable)
         self._total_memtable_flushes += 1
 
-        # Remove from immutable list
+        # Remove from immutable list (its entries now live in the SSTable)
         self._immutable_memtables.remove(old_memtable)
+        old_memtable._data.clear()
 
         # Truncate WAL
         if self._wal is not None:
